@@ -312,8 +312,9 @@ Inductive attr := A1 (setter : string) (v : tok) | A2 (setter key : string) (v :
 Definition dtok := (tok * bool)%type.
 
 (* properties / netCDF variable name ([v_head], emitted before the data), data,
-   and what the class emits after the data ([v_tail]: Bounds - the name of the
-   trailing netCDF dimension) *)
+   and what the class emits after the data ([v_tail]: Bounds and, since
+   handoff/C19-fix2-4.diff, InteriorRing - the name of the trailing netCDF
+   dimension) *)
 Record var := mkV { v_cls : string; v_head : list attr; v_data : option dtok;
                     v_tail : list attr }.
 
@@ -325,7 +326,7 @@ Record var := mkV { v_cls : string; v_head : list attr; v_data : option dtok;
 Inductive family := FPlain | FData | FBounds | FCoord.
 
 (* a metadata construct: [a_pre] = geometry type, climatology (emitted before
-   the bounds); [a_post] = measure, cell type, connectivity, size, netCDF
+   the bounds); [a_post] = measure, external flag (C19-fix2-4), cell type, connectivity, size, netCDF
    dimension, method, axes, qualifiers, coordinates, parameters, ... *)
 Record acon := mkA { a_var : var; a_fam : family; a_pre : list attr;
                      a_bounds : option var; a_ring : option var; a_post : list attr }.
@@ -526,3 +527,181 @@ Definition wf_acon (a : acon) : bool :=
   end.
 
 Definition wf_fld (f : fld) : bool := forallb (fun it => wf_acon (i_con it)) (f_items f).
+
+(* ===================================================================== *)
+(* (c) Data.__str__ (cfdm/data/data.py): the element look-ups as partial  *)
+(*     operations, the three date-time conversion sites, the layout       *)
+(* ===================================================================== *)
+Open Scope string_scope.
+
+(* classes of exception a date-time conversion
+   (Data(value, units, calendar).datetime_array) can raise *)
+Inductive cerr := XValue | XOverflow | XAttr | XType | XOther.
+
+Inductive cres (A : Type) := COk (a : A) | CErr (e : cerr).
+Arguments COk {A} a.
+Arguments CErr {A} e.
+
+(* get_units(None): not set, a string, something that is not a string *)
+Inductive units_k := UNone | UStr (s : string) | UOther.
+
+(* an element of the array as f"{x}" shows it *)
+Inductive elem := EMasked | EVal (txt : string).
+
+(* what Data.__str__ looks at.  [dd_array = false]: Data() without an array.
+   [dd_elems]: the elements in C order.  The outcomes of the conversions are
+   inputs (netCDF4.num2date is outside the anchored code): of the first
+   element as a scalar, of [first, last] as a vector (one failure fails
+   both), of the second element as a scalar. *)
+Record ddata := mkDD {
+  dd_array : bool; dd_units : units_k; dd_cal : option string;
+  dd_shape : list nat; dd_elems : list elem;
+  dd_conv1 : cres string; dd_conv2 : cres (string * string); dd_convm : cres string }.
+
+Fixpoint contains (p s : string) : bool :=
+  String.prefix p s || match s with EmptyString => false | String _ r => contains p r end.
+
+Definition dsize (d : ddata) : nat := fold_right Nat.mul 1%nat (dd_shape d).
+
+(* array.item() of a one-element selection *)
+Definition item_at (d : ddata) (i : nat) : result elem :=
+  match nth_error (dd_elems d) i with Some e => Ok e | None => Err IndexErr end.
+
+(* first_element: _item((slice(0, 1, 1),) * ndim); ValueError from .item()
+   when the selection is empty (a dimension of size 0) or there is no array *)
+Definition first_element (d : ddata) : result elem :=
+  if negb (dd_array d) then Err ValueErr
+  else if Nat.eqb (dsize d) 0 then Err ValueErr else item_at d 0.
+
+(* last_element: _item((slice(-1, None, 1),) * ndim) *)
+Definition last_element (d : ddata) : result elem :=
+  if negb (dd_array d) then Err ValueErr
+  else if Nat.eqb (dsize d) 0 then Err ValueErr else item_at d (dsize d - 1).
+
+(* second_element: _item(np.unravel_index(1, shape)); ValueError when the
+   flat index 1 is out of bounds *)
+Definition second_element (d : ddata) : result elem :=
+  if negb (dd_array d) then Err ValueErr
+  else if Nat.leb (dsize d) 1 then Err ValueErr else item_at d 1.
+
+Fixpoint rep (n : nat) (s : string) : string :=
+  match n with O => "" | S k => s ++ rep k s end.
+
+Definition elem_txt (e : elem) : string := match e with EMasked => "--" | EVal t => t end.
+
+Definition cerr_errk (e : cerr) : errk :=
+  match e with XValue => ValueErr | XType => TypeErr | _ => OtherErr end.
+
+(* try: <conversion>  except <classes caught>: <default> *)
+Definition guarded {A} (catch : cerr -> bool) (c : cres A) (dflt : A) : result A :=
+  match c with
+  | COk a => Ok a
+  | CErr e => if catch e then Ok dflt else Err (cerr_errk e)
+  end.
+
+(* which classes each of the three sites catches *)
+Record catches := mkK { k_single : cerr -> bool; k_pair : cerr -> bool; k_middle : cerr -> bool }.
+
+(* except (ValueError, OverflowError): the code before handoff/C19-fix2-1.diff *)
+Definition catch_vo (e : cerr) : bool := match e with XValue | XOverflow => true | _ => false end.
+Definition k_before : catches := mkK catch_vo catch_vo catch_vo.
+(* except Exception: the repaired code *)
+Definition k_repaired : catches := mkK (fun _ => true) (fun _ => true) (fun _ => true).
+
+Definition truthy (s : string) : bool := match s with EmptyString => false | _ => true end.
+
+Definition units_txt (u : units_k) : string :=
+  match u with UNone => "" | UStr s => s | UOther => "??" end.
+
+Definition cal_txt (c : option string) : string := match c with Some s => s | None => "" end.
+
+Definition is_reftime (u : units_k) : bool :=
+  match u with UStr s => contains "since" s | _ => false end.
+
+Definition last_dim_3 (shape : list nat) : bool :=
+  match rev shape with 3%nat :: _ => true | _ => false end.
+
+Definition data_str (k : catches) (d : ddata) : result string :=
+  let isref := is_reftime (dd_units d) in
+  let u := units_txt (dd_units d) in
+  let c := cal_txt (dd_cal d) in
+  match first_element d with
+  | Err _ =>
+      (* except Exception: no elements to show *)
+      Ok ((if truthy u && negb isref then " " ++ u else "") ++ (if truthy c then " " ++ c else ""))
+  | Ok first =>
+      let ob := rep (length (dd_shape d)) "[" in
+      let cb := rep (length (dd_shape d)) "]" in
+      rbind
+        (if Nat.eqb (dsize d) 1 then
+           rbind (if isref then guarded (k_single k) (dd_conv1 d) "??" else Ok (elem_txt first))
+                 (fun f => Ok (ob ++ f ++ cb))
+         else
+           rbind (last_element d) (fun last =>
+           rbind (if isref then guarded (k_pair k) (dd_conv2 d) ("??", "??")
+                  else Ok (elem_txt first, elem_txt last)) (fun fl =>
+           let f := fst fl in let l := snd fl in
+           if Nat.ltb 3 (dsize d) then Ok (ob ++ f ++ ", ..., " ++ l ++ cb)
+           else if last_dim_3 (dd_shape d) then
+             rbind (second_element d) (fun mid =>
+             rbind (if isref then guarded (k_middle k) (dd_convm d) "??" else Ok (elem_txt mid))
+                   (fun m => Ok (ob ++ f ++ ", " ++ m ++ ", " ++ l ++ cb)))
+           else if Nat.eqb (dsize d) 3 then Ok (ob ++ f ++ ", ..., " ++ l ++ cb)
+           else Ok (ob ++ f ++ ", " ++ l ++ cb))))
+        (fun out =>
+           Ok (out ++ (if isref then (if truthy c then " " ++ c else "")
+                       else if truthy u then " " ++ u else "")))
+  end.
+
+(* the array (when there is one) holds as many elements as its shape says *)
+Definition wf_ddata (d : ddata) : bool :=
+  negb (dd_array d) || Nat.eqb (length (dd_elems d)) (dsize d).
+
+Definition cres_caught {A} (catch : cerr -> bool) (c : cres A) : bool :=
+  match c with COk _ => true | CErr e => catch e end.
+
+(* every class of exception the conversions of this Data raise is caught at
+   the site that performs it *)
+Definition conversions_caught (k : catches) (d : ddata) : bool :=
+  cres_caught (k_single k) (dd_conv1 d) && cres_caught (k_pair k) (dd_conv2 d) &&
+  cres_caught (k_middle k) (dd_convm d).
+
+(* a field or domain together with every Data object its descriptions format
+   (the field's data, the data and the bounds data of every construct) *)
+Record dfull := mkDF { df_state : dstate; df_datas : list ddata }.
+
+Definition describe_all (fixed : bool) (k : catches) (s : dfull)
+  : result (list sitem * list ditem * list string) :=
+  rbind (describe fixed (df_state s)) (fun a =>
+  rbind (mapM (data_str k) (df_datas s)) (fun t => Ok (a, t))).
+
+Definition inv_full (s : dfull) : bool :=
+  inv_partial (df_state s) && forallb wf_ddata (df_datas s).
+
+(* ===================================================================== *)
+(* (d) the order of the cell methods                                      *)
+(* ===================================================================== *)
+Open Scope list_scope.
+
+(* Field.creation_commands: for key, c in self.cell_methods(todict=True).items():
+   the cell methods in the order in which they are applied (Constructs.ordered),
+   each inserted by  f.set_construct(c)  without a key *)
+Definition cm_items (cms : list (string * acon)) : list item :=
+  map (fun kc => mkI (snd kc) None None) cms.
+
+Definition key_leb (a b : string) : bool :=
+  match String.compare a b with Gt => false | _ => true end.
+
+Fixpoint insert_by_key (x : string * acon) (l : list (string * acon)) : list (string * acon) :=
+  match l with
+  | [] => [x]
+  | y :: r => if key_leb (fst x) (fst y) then x :: l else y :: insert_by_key x r
+  end.
+
+(* sorted(self.cell_methods(todict=True).items()): what dump() does, and what
+   creation_commands must not do *)
+Definition sort_by_key (l : list (string * acon)) : list (string * acon) :=
+  fold_right insert_by_key [] l.
+
+Definition unkeyed_item (it : item) : bool := match i_key it with None => true | Some _ => false end.
+Definition unkeyed_entry (e : entry) : bool := match snd e with None => true | Some _ => false end.
